@@ -13,6 +13,9 @@ Parts
   datetime-naive   boundary dates x boundary times (+ every day of years 1 and 9999): from/to_naive_datetime, all calendars
   datetime-aware   x every whole-minute offset in +/-18 h (+/-1 s, +/-59 s): OffsetDateTime and Instant bridges
   timedelta        Duration <-> timedelta alphabet (range ends, +/-1 us around days), Offset <-> timedelta all 129 601 seconds
+  datetime-tzinfo  aware datetimes whose tzinfo has a date-dependent offset: 6 zoneinfo zones x wall times around every transition of
+                   4 years (both folds: inside overlaps and gaps, +/-1 us at their edges) and a user-defined tzinfo depending on month
+                   and fold; reference = the stdlib's own utcoffset() for that datetime
   history          every stdlib->Pyoda route on sequences (A, B) and (A, B, A) of arguments that are == and hash-equal as stdlib values
                    but not the same conversion (same instant at another offset, fold, subclass instance, equal timedelta, other
                    calendar argument): each result must be the conversion of its own argument
@@ -32,6 +35,7 @@ from pyoda_time import CalendarSystem, Duration, Instant, LocalDate, LocalDateTi
 from vf.core.evidence import Acc, exc_origin
 from vf.core.par import pmap
 from vf.models import intarith as M
+from vf.models import tzcases as TZ
 from vf.models.valbind import cal_range, date_at, day_of, make_kwf, private_ok
 
 LEVEL = "model_checking"
@@ -622,6 +626,64 @@ def w_offset_td(job):
     return acc
 
 
+# ---------------------------------------------------------------------------------------------------- date-dependent tzinfo
+def check_tz_aware(acc, label, a):
+    """aware datetime whose tzinfo has a date- (and fold-) dependent utc offset: it denotes local - a.utcoffset(), where utcoffset() is
+    what the stdlib computes for THAT datetime"""
+    off = a.utcoffset()
+    off_s = off.days * 86400 + off.seconds
+    other = a.replace(fold=1 - a.fold).utcoffset()
+    kind = "fold=%d%s" % (a.fold, ",fold-matters" if other != off else "")
+    loc = a.replace(tzinfo=None)
+    n = loc.toordinal() - ORD_EPOCH
+    us = us_of(loc.time())
+    exact_us = TZ.exact_instant_us(a)
+    case = {"kind": "tz-aware", "zone": label, "local": loc.isoformat(), "fold": a.fold}
+    label = label.replace("/", ".")
+    acc.count(states=1, nontrivial=1 if other != off else 0)
+    key = "C15/datetime-tzinfo/instant-from/%s;%s" % (label, kind)
+    ok, i = call(acc, lambda: Instant.from_aware_datetime(a), key, case)
+    if ok:
+        got = _inst_ns(i)
+        if got != exact_us * 1000:
+            acc.violation(key + "/value", "Instant.from_aware_datetime(%r) is %d ns from the epoch; with utcoffset() %s it denotes %d" % (a, got, off, exact_us * 1000), case)
+        else:
+            same_kw(acc, "Instant.from_aware_datetime", i, key, case, a)
+            ok, back = call(acc, i.to_datetime_utc, "C15/datetime-tzinfo/instant-to/%s;%s" % (label, kind), case)
+            if ok and (back.utcoffset() != dt.timedelta(0) or back.replace(tzinfo=None) != dt.datetime(1970, 1, 1) + dt.timedelta(microseconds=exact_us)):
+                acc.violation("C15/datetime-tzinfo/instant-roundtrip/%s;%s" % (label, kind), "Instant.from_aware_datetime(%r).to_datetime_utc() is %s" % (a, back), case)
+    if off.microseconds == 0 and M.in_off(off_s):
+        key = "C15/datetime-tzinfo/odt-from/%s;%s" % (label, kind)
+        ok, o = call(acc, lambda: OffsetDateTime.from_aware_datetime(a), key, case)
+        if ok:
+            got = _obs_odt(o)
+            if got != (n, us * 1000, off_s, "ISO"):
+                acc.violation(key + "/fields", "OffsetDateTime.from_aware_datetime(%r) is (day, ns, offset, cal) %r, exact %r" % (a, got, (n, us * 1000, off_s, "ISO")), case)
+            else:
+                ok, back = call(acc, o.to_aware_datetime, "C15/datetime-tzinfo/odt-to/%s;%s" % (label, kind), case)
+                if ok and (back.utcoffset() != off or back.replace(tzinfo=None) != loc):
+                    acc.violation("C15/datetime-tzinfo/odt-roundtrip/%s;%s" % (label, kind), "from_aware_datetime(%r).to_aware_datetime() is %s" % (a, back), case)
+
+
+@functools.cache
+def tz_cases():
+    cases, missing = TZ.zone_cases()
+    return cases + TZ.custom_cases(), missing
+
+
+@worker
+def w_tz_aware(job):
+    lo, hi = job
+    acc = Acc()
+    cases, _ = tz_cases()
+    for label, a in cases[lo:hi]:
+        check_tz_aware(acc, label, a)
+    acc.outcome("tzinfo-cases", hi - lo)
+    if lo == 0 and cases:
+        acc.sample({"tz_aware": repr(cases[5][1]), "utcoffset": str(cases[5][1].utcoffset())})
+    return acc
+
+
 # ---------------------------------------------------------------------------------------------------- call history
 class _DT(dt.datetime):
     pass
@@ -673,6 +735,10 @@ def history_groups():
         g.append((_DT(a.year, a.month, a.day, a.hour, a.minute, a.second, a.microsecond, tzinfo=a.tzinfo),))
         out["odt-from-aware"].append(("same-instant-other-offset/fold/subclass", g))
         out["instant-from-aware"].append(("same-instant-other-offset/fold/subclass", g))
+    for name, g in TZ.shared_tzinfo_groups():
+        grp = [(x,) for x in g]
+        out["odt-from-aware"].append(("shared-tzinfo-object-other-offset", grp))
+        out["instant-from-aware"].append(("shared-tzinfo-object-other-offset", grp))
     for d in (dt.datetime(2000, 2, 29, 1, 30, 0, 5), dt.datetime(1, 1, 1), dt.datetime(9999, 12, 31, 23, 59, 59, 999_999)):
         sub = _DT(d.year, d.month, d.day, d.hour, d.minute, d.second, d.microsecond)
         g = [(d,), (d.replace(fold=1),), (sub,), (d, CalendarSystem.iso), (d.replace(fold=1), CalendarSystem.gregorian)]
@@ -771,6 +837,8 @@ def ambient_slice(acc, ordinals, times, offs):
             check_ldt_to_naive(acc, "ISO", n, t)
             for off in (0, M.OFF_MAX_S, M.OFF_MIN_S):
                 check_odt_to_aware(acc, "ISO", n, t, off)
+    for label, a in tz_cases()[0][::9]:
+        check_tz_aware(acc, label, a)
     acc.merge(w_timedelta.__wrapped__(0))
     for lo, hi in ((1, 120), (ORD_EPOCH - 60, ORD_EPOCH + 60), (ORD_MAX - 119, ORD_MAX + 1)):
         acc.merge(w_dates.__wrapped__((lo, hi)))
@@ -894,6 +962,13 @@ def run(ctx):
         span = M.OFF_MAX_S - M.OFF_MIN_S + 1
         for acc in pmap(w_offset_td, _rot([(M.OFF_MIN_S + a, M.OFF_MIN_S + min(span, a + 8192)) for a in range(0, span, 8192)], ctx.seed)):
             ctx.merge_part("timedelta", acc)
+    if _want(ctx, "datetime-tzinfo"):
+        cases, missing = tz_cases()
+        for z in missing:
+            ctx.degrade("zoneinfo zone %s not available on this machine: its cases are skipped" % z)
+        ctx.note("tzinfo_cases", len(cases))
+        for acc in pmap(w_tz_aware, _rot([(a, min(len(cases), a + 64)) for a in range(0, len(cases), 64)], ctx.seed)):
+            ctx.merge_part("datetime-tzinfo", acc)
     if _want(ctx, "history"):
         groups = history_groups()
         jobs = [(route, gi) for route in groups for gi in range(len(groups[route]))]
@@ -960,6 +1035,10 @@ def replay(rec):
             check_odt_to_aware(acc, case["cal"], case["day"], case["t"], case["off"])
         elif k in ("timedelta", "duration-to"):
             acc.merge(w_timedelta(0))
+        elif k == "tz-aware":
+            for label, a in tz_cases()[0]:
+                if label == case["zone"] and a.replace(tzinfo=None).isoformat() == case["local"] and a.fold == case["fold"]:
+                    check_tz_aware(acc, label, a)
         elif k == "history":
             check_history(acc, case["route"], case["group"])
         elif k == "offset-td":
